@@ -115,6 +115,8 @@ def install(RTree, REPROCESS, NotModelled):
             closed = False
             for node in reversed(self.stack):
                 if node.is_html("li"):
+                    if "special-set-html5lib" in sw and not self.in_list_scope("li"):
+                        break  # pinned behaviour: the implied </li> goes through the end-tag handler, which needs list scope
                     self.implied_end_tags(exclude="li")
                     self.pop_until("li")
                     closed = True
@@ -132,14 +134,11 @@ def install(RTree, REPROCESS, NotModelled):
             self.frameset_ok = False
             closed = False
             for node in reversed(self.stack):
-                if node.is_html("dd"):
-                    self.implied_end_tags(exclude="dd")
-                    self.pop_until("dd")
-                    closed = True
-                    break
-                if node.is_html("dt"):
-                    self.implied_end_tags(exclude="dt")
-                    self.pop_until("dt")
+                if node.is_html("dd", "dt"):
+                    if "special-set-html5lib" in sw and not self.in_scope(node.name):
+                        break
+                    self.implied_end_tags(exclude=node.name)
+                    self.pop_until(node.name)
                     closed = True
                     break
                 if self.special(node) and not node.is_html("address", "div", "p"):
